@@ -318,8 +318,9 @@ BoxRowsOK(rows, b) ==
   /\ LET tl == rows[top][L0] tr == rows[top][R0] bl == rows[bot][L0] br == rows[bot][R0]
          ascii == tl \in AsciiTL
          sharp == tl \in {43, 9484}
-         hz == IF ascii THEN BoxHz ELSE UniHz
-         side == IF ascii THEN BoxSide ELSE UniSide IN
+         \* edges and sides may be drawn in either alphabet, whatever the corners are
+         hz == BoxHz \cup UniHz
+         side == BoxSide \cup UniSide IN
      /\ (ascii => tr \in AsciiTR /\ bl \in AsciiBL /\ br \in AsciiBR) /\ (~ascii => tl \in UniTL /\ tr \in UniTR /\ bl \in UniBL /\ br \in UniBR)
      /\ (sharp => (tr \in {43, 9488} /\ bl \in {43, 9492} /\ br \in {43, 9496}))
      /\ (~sharp => (tr \notin {43, 9488} /\ bl \notin {43, 9492} /\ br \notin {43, 9496} /\ b.w >= 1))
@@ -524,6 +525,19 @@ C14corner_OK(ev) ==
         /\ ArcSharpCorner(e) \in corners                                                       \* bulges outward:
         /\ LET c == ArcCentre(e) IN c[1] > x0 /\ c[1] < x1 /\ c[2] > y0 /\ c[2] < y1           \* centre on the inner side
   /\ { ArcSharpCorner(ev.doc.elems[i]) : i \in A } = corners
+  \* the outline is closed: on each of the four sides the stretch between the two arcs is covered by lines on that side
+  /\ LET arcEnds == UNION { { ArcP1(ev.doc.elems[i]), ArcP2(ev.doc.elems[i]) } : i \in A }
+         lineH(i, y, sx) == LET a == LP1(ev.doc.elems[i]) b == LP2(ev.doc.elems[i]) IN
+                              a[2] = y /\ b[2] = y /\ ((a[1] <= sx /\ sx <= b[1]) \/ (b[1] <= sx /\ sx <= a[1]))
+         lineV(i, x, sy) == LET a == LP1(ev.doc.elems[i]) b == LP2(ev.doc.elems[i]) IN
+                              a[1] = x /\ b[1] = x /\ ((a[2] <= sy /\ sy <= b[2]) \/ (b[2] <= sy /\ sy <= a[2]))
+         HCovered(y) == LET xs == { q[1] : q \in { e \in arcEnds : e[2] = y } } IN
+                          /\ Cardinality(xs) = 2
+                          /\ \A j \in 0..((SetMax(xs) - SetMin(xs)) \div 8) : \E i \in Ls : lineH(i, y, SetMin(xs) + 8 * j)
+         VCovered(x) == LET ys == { q[2] : q \in { e \in arcEnds : e[1] = x } } IN
+                          /\ Cardinality(ys) = 2
+                          /\ \A j \in 0..((SetMax(ys) - SetMin(ys)) \div 8) : \E i \in Ls : lineV(i, x, SetMin(ys) + 8 * j)
+     IN HCovered(y0) /\ HCovered(y1) /\ VCovered(x0) /\ VCovered(x1)
 
 ---------------------------------------------------------------------------
 (* C16 — legend entries become CSS rules; {tags} style the innermost enclosing shape         *)
